@@ -741,10 +741,18 @@ def sibling(text, rng):
 def around(rng, chars, n):
     """small drawings around the given characters (the ones whose table entries changed): the character alone, with one
     neighbour in each of the eight positions, in random 3x3 neighbourhoods, in the first column / row, in a box, on a line"""
-    nb = "-|+/\\_.'`*~:"
+    nb = "-|+/\\_.'`*~:!"
+    try:
+        import common
+        nb = nb + "".join(g for g in common.table_glyphs() if g not in nb)      # every glyph of the Unicode table as well
+    except Exception:
+        pass
     out = []
     for c in chars:
         out += [c, c * 3, c + "\n" + c, "-" + c + "-", "|\n" + c + "\n|", box(3, 1, inner=[" " + c])]
+        for d in nb:
+            # the character as the first / last letter of a word with the neighbour directly before / after / above / below it
+            out += [d + c + "mas", "ab" + c + d, d + "\n" + c + "ab", c + "ab\n" + d]
         for d in nb:
             for (dx, dy) in ((-1, -1), (0, -1), (1, -1), (-1, 0), (1, 0), (-1, 1), (0, 1), (1, 1)):
                 rows = [[" "] * 3 for _ in range(3)]
